@@ -622,3 +622,15 @@ Theorem C04_step_chk_err : forall w o e w', step_chk w o = (Err e, w') ->
   step w o = (Err e, w') \/ (op_live w o = false /\ e = EModel /\ w' = w).
 Proof. exact step_chk_err. Qed.
 Print Assumptions C04_step_chk_err.
+
+(* move_to (progress, continued): needs the invariant - after the node is taken out the target must be found again *)
+Theorem C04_move_progress : forall w ti n target b, WF.WFw w -> valid_move w ti n target b = true ->
+  fst (step w (OMove ti n ti target b)) = Ok [].
+Proof. exact move_progress. Qed.
+Print Assumptions C04_move_progress.
+
+Example C04_move_progress_nonvacuous :
+  let w := run [ONewTree false None; OAdd 0 0 dA None None BNone; OAdd 0 0 dB None None BNone; OAdd 0 1 dC None None BNone] empty_world in
+  valid_move w 0 3 2 BNone = true /\ valid_move w 0 1 3 BNone = false /\ valid_move w 0 3 0 (BNode 2) = true /\
+  fst (step w (OMove 0 1 0 3 BNone)) = Err EValue.
+Proof. vm_compute. repeat split. Qed.
